@@ -51,6 +51,8 @@ type tcase struct {
 	FField string   `json:"ffield"`         // "" (as given by Names) | none | int
 	Hex    string   `json:"body"`           // body bytes, hex
 	Note   string   `json:"note,omitempty"` // generator label
+	Tight  bool     `json:"tight,omitempty"` // body built from chosen codes: the tighter time allowance applies
+	Live   bool     `json:"live,omitempty"`  // sample the live heap during the decode
 	body   []byte
 }
 
@@ -186,6 +188,7 @@ type outcome struct {
 	Alloc uint64 `json:"alloc"`
 	DurNS int64  `json:"dur_ns"`
 	Leak  int    `json:"leak"`
+	Live  uint64 `json:"live,omitempty"` // peak of the live heap above its level before the decode
 	Err   string `json:"err,omitempty"`
 	Stack string `json:"stack,omitempty"`
 }
@@ -327,9 +330,58 @@ func allowedNS(in, out int64) int64 {
 	return (5*time.Second).Nanoseconds() + 50000*(in+out)
 }
 
+// allowFor: the allowance of a case.  Bodies the harness builds from chosen CCITT codes are
+// known to decode in well under 0.05 s per megabyte on the unchanged tree; for them the
+// allowance is 0.75 s + 5 us per input or output byte.
+func allowFor(c *tcase) func(in, out int64) int64 {
+	if c.Tight {
+		return func(in, out int64) int64 { return (750 * time.Millisecond).Nanoseconds() + 5000*(in+out) }
+	}
+	return allowedNS
+}
+
+func liveHeap() uint64 {
+	runtime.GC()
+	var ms runtime.MemStats
+	runtime.ReadMemStats(&ms)
+	return ms.HeapAlloc
+}
+
+// runCase is runStream, for c.Live with a sampler that forces a collection every 2 ms and
+// records the largest heap still reachable: what the decoder really holds, whatever its own
+// accounting says.
+func runCase(c *tcase, big bool) outcome {
+	if !c.Live {
+		return runStream(c.dict(), c.Body(), big)
+	}
+	base := liveHeap()
+	var peak atomic.Uint64
+	stop, stopped := make(chan struct{}), make(chan struct{})
+	go func() {
+		defer close(stopped)
+		for {
+			select {
+			case <-stop:
+				return
+			case <-time.After(2 * time.Millisecond):
+			}
+			if v := liveHeap(); v > peak.Load() {
+				peak.Store(v)
+			}
+		}
+	}()
+	o := runStream(c.dict(), c.Body(), big)
+	close(stop)
+	<-stopped
+	if p := peak.Load(); p > base {
+		o.Live = p - base
+	}
+	return o
+}
+
 // guarded runs f under the watchdog.  ok=false means the allowance ran out;
 // f may then still be running (a goroutine cannot be stopped).
-func guarded(in int64, f func() outcome) (o outcome, ok bool) {
+func guarded(in int64, allow func(in, out int64) int64, f func() outcome) (o outcome, ok bool) {
 	done := make(chan outcome, 1)
 	go func() { done <- f() }()
 	tick := time.NewTicker(50 * time.Millisecond)
@@ -340,7 +392,7 @@ func guarded(in int64, f func() outcome) (o outcome, ok bool) {
 		case o = <-done:
 			return o, true
 		case <-tick.C:
-			if time.Since(t0).Nanoseconds() > allowedNS(in, curOut.Load()) {
+			if time.Since(t0).Nanoseconds() > allow(in, curOut.Load()) {
 				return outcome{Class: "timeout", DurNS: time.Since(t0).Nanoseconds(), N: curOut.Load()}, false
 			}
 		}
@@ -400,7 +452,7 @@ func replayMain(path string, big bool) {
 	initSeeds()
 	leakGrace = 500 * time.Millisecond
 	body := c.Body()
-	o, _ := guarded(int64(len(body)), func() outcome { return runStream(c.dict(), body, big) })
+	o, _ := guarded(int64(len(body)), allowFor(&c), func() outcome { return runCase(&c, big) })
 	out, _ := json.Marshal(o)
 	fmt.Println(string(out))
 	os.Exit(0) // also ends a goroutine that is still running
